@@ -1628,6 +1628,11 @@ static size_t produceResultArrayBinary(scpi_t * context, const void * array, siz
                 break;
         }
 
+        if (count == 0) {
+            /* empty block - complete it, so that it counts as a result item */
+            result += SCPI_ResultArbitraryBlockData(context, array, 0);
+        }
+
         return result;
     }
 }
